@@ -14,7 +14,8 @@ from fractions import Fraction
 
 REPO = sys.argv[1] if len(sys.argv) > 1 else "/repo"
 OUT = os.path.dirname(os.path.abspath(__file__))
-FINDERS = {"moon_phase": ["new", "first", "full", "last"], "moon_perigee_apogee": ["perigee", "apogee"],
+# moon_phase targets can be generated too (add them here), but one target needs > 40 min / 6 GB to check
+FINDERS = {"moon_phase": [], "moon_perigee_apogee": ["perigee", "apogee"],
            "moon_passage_nodes": ["ascending", "descending"], "moon_maximum_declination": ["northern", "southern"]}
 BAD_STRINGS = ["", "New", "NEW", "half", "none", "newer"]
 TLO, THI = -41, 21
@@ -428,7 +429,7 @@ if __name__ == "__main__":
     tree = ast.parse(src)
     cls = [n for n in tree.body if isinstance(n, ast.ClassDef) and n.name == "Moon"][0]
     table = {}
-    alltargets = [t for ts in FINDERS.values() for t in ts]
+    alltargets = ["new", "first", "full", "last"] + [t for ts in FINDERS.values() for t in ts]
     for fn, targets in FINDERS.items():
         fnode = [n for n in cls.body if isinstance(n, ast.FunctionDef) and n.name == fn][0]
         for t in targets:
@@ -438,6 +439,6 @@ if __name__ == "__main__":
                 print("%-44s B=%-13.9f C=%-7.3f off=%s ret=%s" % (mod, meta["B"], meta["C"], meta["off"], meta["ret"]))
             except Bad as e:
                 print("SKIP %s %s: %s" % (fn, t, e))
-        others = [t for t in alltargets if t not in targets][:4]
+        others = [t for t in alltargets if t not in (targets or ["new", "first", "full", "last"])][:4]
         print(emit_errors(fn, targets, others))
     json.dump(table, open(os.path.join(OUT, "moonfinders.json"), "w"), indent=1, sort_keys=True)
